@@ -807,8 +807,8 @@ def _apply_step(mp4, wrap, step, model, note):
             traf = _resolve(wrap, ["moof", "traf"])
         except AttributeError:
             raise _Skip()
-        if traf.find_child("tfdt") is not None:
-            raise _Skip()
+        if traf.find_child("tfdt") is not None or traf.find_child("trun") is None:
+            raise _Skip()       # the server does this to a fragment it is about to serve: it has a trun
         tfdt = mp4.TrackFragmentDecodeTimeBox(version=0, flags=0, base_media_decode_time=step["value"])
         traf.insert_child(traf.index("tfhd") + 1, tfdt)
         traf.trun.flags |= mp4.TrackFragmentRunBox.data_offset_present
@@ -957,7 +957,9 @@ def check_edits(case) -> Outcome:
                     if traf.atom_type != "traf":
                         continue
                     tfhd = traf.find_child("tfhd")
-                    if tfhd is not None and tfhd.flags & 1 and tfhd.base_data_offset is not None:
+                    # (without the flag the attribute holds the position the moof had when it was parsed, which is
+                    # just as stale; generate_media_segment resets it for every fragment it serves)
+                    if tfhd is not None and tfhd.base_data_offset is not None:
                         tfhd.base_data_offset = None
                         out.cls("base-reset-by-protocol")
         try:
